@@ -12,6 +12,11 @@
 //	    one shared iterator (through IteratorDatastore.Read) over one scripted tuple iterator, driven from ONE goroutine:
 //	    acts: c (new clone), n<i> N<i> h<i> H<i> s<i>, x (wait until the admission timer has stopped the original; last act only)
 //	    output: results + " | " + "remaining:stops:nextCalls" of the underlying iterator
+//	shc <script> <pauseAt> <order>
+//	    cancellation isolation: clones A and B of one shared iterator; A's context is cancelled while the batch fetch A
+//	    triggered is blocked inside the underlying iterator's pauseAt-th Next (gated on channels, no sleeps); B (live
+//	    context) then drains.  order 0: B is cloned before A reads, 1: after A was cancelled.
+//	    output: "A=<seq> B=<seq> | made:remaining:stops:nextCalls" (sequences abbreviated as in shs)
 //	shs <script> <plan>
 //	    stress: one goroutine per plan entry ("-1" = read until an error, k = stop after k items), all started together
 //	    output: one observed sequence per goroutine, ';'-separated, + " | " + underlying state
@@ -537,6 +542,111 @@ func execShared(f []string) string {
 	return join(out) + " | " + underState(inner.first())
 }
 
+// gatedIter blocks the pauseAt-th Next call until the harness lets it go on; the call is then forwarded unchanged with
+// the context it was given (the scripted iterator answers a cancelled context with the context's error and changes nothing).
+type gatedIter struct {
+	*scriptIter[*openfgav1.Tuple]
+	mu      sync.Mutex
+	calls   int
+	pauseAt int
+	reached chan struct{}
+	proceed chan struct{}
+}
+
+func (g *gatedIter) Next(ctx context.Context) (*openfgav1.Tuple, error) {
+	g.mu.Lock()
+	g.calls++
+	hit := g.calls == g.pauseAt
+	g.mu.Unlock()
+	if hit {
+		close(g.reached)
+		select {
+		case <-g.proceed:
+		case <-time.After(20 * time.Second): // failure path only
+		}
+	}
+	return g.scriptIter.Next(ctx)
+}
+
+type gatedReader struct {
+	storage.RelationshipTupleReader
+	mu   sync.Mutex
+	made int
+	g    *gatedIter
+}
+
+func (r *gatedReader) Read(ctx context.Context, store string, filter storage.ReadFilter, options storage.ReadOptions) (storage.TupleIterator, error) {
+	r.mu.Lock()
+	defer r.mu.Unlock()
+	r.made++
+	if r.made == 1 {
+		return r.g, nil
+	}
+	return &scriptIter[*openfgav1.Tuple]{id: r.made}, nil // not reached while the original is alive
+}
+
+func execSharedCancel(f []string) string {
+	script, order := f[1], f[3]
+	pauseAt, _ := strconv.Atoi(f[2])
+	g := &gatedIter{scriptIter: parseScript(0, script, mkTuple), pauseAt: pauseAt, reached: make(chan struct{}), proceed: make(chan struct{})}
+	inner := &gatedReader{g: g}
+	st := sharediterator.NewSharedIteratorDatastoreStorage()
+	ds := sharediterator.NewSharedIteratorDatastore(inner, st,
+		sharediterator.WithMaxAdmissionTime(time.Hour), sharediterator.WithMaxIdleTime(time.Hour))
+	var prefix []string
+	for _, e := range strings.Split(expandScript(script), ",") {
+		if e != "_" && !strings.HasPrefix(e, "!") {
+			prefix = append(prefix, e)
+		}
+	}
+	drain := func(ctx context.Context, it storage.TupleIterator) string {
+		var toks []string
+		for {
+			v, err := it.Next(ctx)
+			toks = append(toks, resTok(showTuple(v), err))
+			if err != nil || len(toks) > len(prefix)+3 {
+				break
+			}
+		}
+		return compress(toks, prefix)
+	}
+	ctxA, cancelA := context.WithCancel(context.Background())
+	defer cancelA()
+	itA, err := ds.Read(ctxA, "s", readFilter, storage.ReadOptions{})
+	if err != nil {
+		return "cerr"
+	}
+	var itB storage.TupleIterator
+	if order == "0" {
+		if itB, err = ds.Read(liveCtx, "s", readFilter, storage.ReadOptions{}); err != nil {
+			return "cerr"
+		}
+	}
+	doneA := make(chan string, 1)
+	go func() { doneA <- drain(ctxA, itA) }()
+	select {
+	case <-g.reached:
+	case <-time.After(20 * time.Second): // failure path only
+		close(g.proceed)
+		return "gate-not-reached A=" + <-doneA
+	}
+	cancelA()
+	close(g.proceed)
+	resA := <-doneA
+	if itB == nil {
+		if itB, err = ds.Read(liveCtx, "s", readFilter, storage.ReadOptions{}); err != nil {
+			return "cerr"
+		}
+	}
+	resB := drain(liveCtx, itB)
+	itA.Stop()
+	itB.Stop()
+	inner.mu.Lock()
+	made := inner.made
+	inner.mu.Unlock()
+	return fmt.Sprintf("A=%s B=%s | %d:%s", resA, resB, made, underState(g.scriptIter))
+}
+
 func execSharedStress(f []string) string {
 	script := f[1]
 	var plan []int
@@ -621,6 +731,8 @@ func exec(line string, st *hx.Stats) string {
 		return execShared(f)
 	case "shs":
 		return execSharedStress(f)
+	case "shc":
+		return execSharedCancel(f)
 	case "shr":
 		// shr <script> <plan> <rounds>: the stress case repeated; prints the first deviating round's output (same format as
 		// shs) or the last round's.  Used to reproduce the rare stale-fetch interleaving of fetchAndWait.
@@ -900,6 +1012,17 @@ func gen(r *hx.Rand, n int, tier string, emit func(string), st *hx.Stats) {
 			scripts := []string{"0.0,!7", "!7,0.0", "#30@20!8", "0.0,1.1,!3,2.0"}
 			plan := strings.TrimSuffix(strings.Repeat("-1,", 16), ",")
 			emit(fmt.Sprintf("shr %s %s %d", hx.Pick(c, scripts), plan, 1500))
+			continue
+		}
+		// a small share: a clone cancelled in the middle of the batch fetch it triggered, another clone reads on
+		if c.Intn(60) == 0 {
+			st.Inc("shc")
+			n := 101 + c.Intn(160)
+			script := fmt.Sprintf("#%d", n)
+			if c.Chance(1, 4) {
+				script = fmt.Sprintf("#%d@%d!%d", n, c.Intn(n+1), 1+c.Intn(9))
+			}
+			emit(fmt.Sprintf("shc %s %d %d", script, 1+c.Intn(n), c.Intn(2)))
 			continue
 		}
 		switch k := c.Intn(20); {
